@@ -348,6 +348,45 @@ func runC03(c *Ctx) {
 
 	// R03.6 error discipline
 	pb := p.Fn("(*rt/middleware.untypedParamBinder).Bind")
+	// form parameters are read from a body of one of the two form media types — recognised on the PARSED media type
+	// (runtime.ContentType lower-cases it and drops the parameters), never on header text
+	{
+		nForm := 0
+		for _, in := range instrs(pb) {
+			bo, ok := in.(*ssa.BinOp)
+			if !ok || (bo.Op != token.EQL && bo.Op != token.NEQ) {
+				continue
+			}
+			lit, other := "", ssa.Value(nil)
+			if k, isK := constString(bo.Y); isK {
+				lit, other = k, bo.X
+			} else if k, isK := constString(bo.X); isK {
+				lit, other = k, bo.Y
+			}
+			if lit != "multipart/form-data" && lit != "application/x-www-form-urlencoded" {
+				continue
+			}
+			nForm++
+			okMT, bad := allOrigins(other, oCall(0, "rt.ContentType"), oCall(0, "(*rt/middleware.Context).ContentType"), oCall(0, "mime.ParseMediaType"))
+			c.obI("R03.6", bo, "form-media-type-is-the-parsed-one", okMT, "the media type compared with the form media types is the parsed (lower-cased, parameter-free) one", "compared value originates from "+describeOrigin(bad)+": a form posted as `Multipart/Form-Data` or `Application/X-WWW-Form-Urlencoded` is refused")
+		}
+		c.obRF("R03.6", pb, "recognises-form-bodies", nForm >= 2, "Bind recognises the two form media types", fmt.Sprintf("%d comparisons", nForm))
+	}
+	// request.MultipartForm is nil unless the body was multipart: the binder never reads through it unguarded (a
+	// urlencoded post to an operation with a file parameter must yield an error, not a nil dereference)
+	{
+		isMF := func(v ssa.Value) bool {
+			_, ok := fieldLoad(v, "net/http.Request", "MultipartForm")
+			return ok
+		}
+		for _, in := range instrs(pb) {
+			fa, ok := in.(*ssa.FieldAddr)
+			if !ok || !isMF(fa.X) {
+				continue
+			}
+			c.obI("R03.8", fa, "multipart-form-read-only-when-present", guardedBy(fa, nil, factNil(isMF, false)), "request.MultipartForm is dereferenced only behind a nil test (it is nil for every non-multipart body)", "request.MultipartForm."+fieldNameAt(fa)+" is read without a nil test: a urlencoded request panics the binder")
+		}
+	}
 	checkErrorsReturned(c, "R03.6", pb, 0, func(call *ssa.Call) bool {
 		n := calleeName(&call.Call)
 		// FormFile error: optional file parameters bind nothing (checked separately below);
@@ -618,6 +657,9 @@ func runC03(c *Ctx) {
 				okVal = ld == ssa.Value(l.Elem)
 			}
 			c.obI("R03.7", conv, "item-i-from-occurrence-i", okIdx && okVal, "occurrence i is converted into element i (order and positions are kept)", "")
+			// an item has no default of its own: the ARRAY's default (a whole slice) is never handed to the item conversion,
+			// where an empty item would be bound from it (reflect panics or stores the slice's text)
+			c.obI("R03.7", conv, "items-converted-without-default", len(a) >= 2 && isNilConst(a[1]), "the per-item conversion is given no default value (nil): the array's default applies to the absent array only", "the item conversion receives "+describe(a[1])+" as its default")
 		}
 		n := 0
 		for _, ci := range callsIn(sf, "(reflect.Value).Set") {
